@@ -94,7 +94,8 @@ func (c Cfg) valid() bool {
 	// Setup(UseEpoch(t)) stores t.UnixNano()/1e6, so no epoch beyond the
 	// int64-nanosecond horizon can be configured through the package's API; the
 	// hook could install one, the check does not.
-	return c.Node >= 0 && c.Node < 1<<c.NodeBits && c.EpochMs >= 0 && c.EpochMs <= nanoEndMs
+	// (a node outside the field is a legal argument: the constructors have to refuse it)
+	return c.Node >= -1<<40 && c.Node <= 1<<40 && c.EpochMs >= 0 && c.EpochMs <= nanoEndMs
 }
 
 func (c Cfg) classes(res *vkit.Result) {
@@ -127,12 +128,18 @@ func msTime(absMs int64, subNs int64) time.Time {
 	return time.Unix(sec, rem*1000000+subNs)
 }
 
+// nodeOutside: the configured node does not fit the node field.
+func (c Cfg) nodeOutside() bool { return c.Node < 0 || c.Node > int64(1)<<c.NodeBits-1 }
+
 func genCfg(t *rapid.T, lateEpochs bool) Cfg {
 	var c Cfg
 	c.NodeBits = uint8(rapid.SampledFrom([]int{8, 9, 10}).Draw(t, "nodeBits"))
 	c.NodeAtLowest = rapid.Bool().Draw(t, "atLowest")
 	nodeMax := int64(1)<<c.NodeBits - 1
-	switch rapid.IntRange(0, 5).Draw(t, "nodeKind") {
+	switch rapid.IntRange(0, 6).Draw(t, "nodeKind") {
+	case 6:
+		// outside the node field: the constructors must refuse it - or, if one accepts it, the ids must still carry it
+		c.Node = rapid.SampledFrom([]int64{nodeMax + 1, nodeMax + 2, 2 * (nodeMax + 1), -1, 1 << 40}).Draw(t, "nodeOut")
 	case 0:
 		c.Node = 0
 	case 1:
@@ -280,6 +287,10 @@ func ExecHard(c HardCase) *vkit.Result {
 				}
 			}
 			n, err := snowflake.NewNode(c.Cfg.Node, last)
+			if err != nil && c.Cfg.nodeOutside() {
+				res.Class("node outside the field: refused")
+				return res
+			}
 			if err != nil || n == nil {
 				return res.Failf("hard/newnode", "seg %d: NewNode(%d, %d) with nodeBits %d: %v", k, c.Cfg.Node, last, c.Cfg.NodeBits, err)
 			}
@@ -732,6 +743,10 @@ func ExecMono(c MonoCase) *vkit.Result {
 	restoreCfg := snowflake.VerifSetConfig(c.Cfg.EpochMs, c.Cfg.NodeBits, c.Cfg.NodeAtLowest)
 	defer restoreCfg()
 	node, err := snowflake.NewMonoNode(c.Cfg.Node)
+	if err != nil && c.Cfg.nodeOutside() {
+		res.Class("node outside the field: refused")
+		return res
+	}
 	if err != nil || node == nil {
 		return res.Failf("mono/newnode", "NewMonoNode(%d) with nodeBits %d: %v", c.Cfg.Node, c.Cfg.NodeBits, err)
 	}
@@ -909,6 +924,10 @@ func ExecRace(c RaceCase) *vkit.Result {
 				return res
 			}
 			node, err := snowflake.NewMonoNode(c.Cfg.Node)
+			if err != nil && c.Cfg.nodeOutside() {
+				res.Class("node outside the field: refused")
+				return res
+			}
 			if err != nil || node == nil {
 				return res.Failf("race/newnode", "NewMonoNode(%d): %v", c.Cfg.Node, err)
 			}
@@ -959,6 +978,10 @@ func ExecRace(c RaceCase) *vkit.Result {
 		})
 		defer restoreNow()
 		node, err := snowflake.NewNode(c.Cfg.Node, last)
+		if err != nil && c.Cfg.nodeOutside() {
+			res.Class("node outside the field: refused")
+			return res
+		}
 		if err != nil || node == nil {
 			return res.Failf("race/newnode", "NewNode(%d, %d): %v", c.Cfg.Node, last, err)
 		}
